@@ -41,6 +41,15 @@ func (*vcResult) isResult() {}
 
 type vcUserParams struct{ K int }
 
+// vcBadParams cannot be encoded by encoding/json (a channel): Connection.Call fails in NewCall, before
+// the call is registered and before the C1 yield site (op "ecallbad").
+type vcBadParams struct{ C chan int }
+
+func (*vcBadParams) GetMeta() map[string]any { return nil }
+func (*vcBadParams) SetMeta(map[string]any)  {}
+func (*vcBadParams) isParams()               {}
+func (x *vcBadParams) isNil() bool           { return x == nil }
+
 var errVcBroken = errors.New("verif: broken pipe")
 
 type vcCase struct {
@@ -328,6 +337,8 @@ func vcClassify(err error, res *vcResult) string {
 		return "broken"
 	case errors.Is(err, jsonrpc2.ErrRejected):
 		return "rejected"
+	case strings.Contains(err.Error(), "marshaling call parameters"):
+		return "marshal"
 	case errors.As(err, &we):
 		return fmt.Sprintf("ok%d", we.Code)
 	}
@@ -349,7 +360,12 @@ func vcClassifyNotify(err error) string {
 }
 
 // --- environment actions; each returns the op tokens
-func (c *vcCase) envCall() string {
+// envCallBad: a user call whose params cannot be marshalled.
+func (c *vcCase) envCallBad() string { c.envCallWith(&vcBadParams{C: make(chan int)}); return "ecallbad" }
+
+func (c *vcCase) envCall() string { return c.envCallWith(nil) }
+
+func (c *vcCase) envCallWith(params Params) string {
 	ctx, cancel := context.WithCancel(context.Background())
 	cl := &vcCall{n: len(c.calls) + 1, ctx: ctx, cancel: cancel}
 	c.calls = append(c.calls, cl)
@@ -363,7 +379,7 @@ func (c *vcCase) envCall() string {
 			}
 		}()
 		var res vcResult
-		err := call(ctx, c.conn, "m", nil, &res)
+		err := call(ctx, c.conn, "m", params, &res)
 		cl.res = vcClassify(err, &res)
 		cl.done = true
 	}()
@@ -523,6 +539,7 @@ func (c *vcCase) emit(out *verifOut, cs, op string, tags ...string) {
 	synctest.Wait()
 	obs := c.observe()
 	out.line(cs, op, obs, tags...)
+	out.flush() // a panic on an SDK goroutine (e.g. "retire called twice" in the reader) kills the process: keep what was observed
 	c.steps++
 }
 
@@ -689,7 +706,13 @@ func vcRunCase(t *testing.T, out *verifOut, cs string, rng *rand.Rand, script []
 		}
 		if !force && envBudget > 0 {
 			opts = append(opts,
-				opt{func() (string, string) { envBudget--; return c.envCall(), "ecall" }},
+				opt{func() (string, string) {
+					envBudget--
+					if rng.Intn(20) == 0 { // a call whose params cannot be encoded
+						return c.envCallBad(), "ecallbad"
+					}
+					return c.envCall(), "ecall"
+				}},
 				opt{func() (string, string) { envBudget--; return c.envNotify(), "enotify" }})
 			if c.closeN < 2 && rng.Intn(3) == 0 {
 				opts = append(opts, opt{func() (string, string) { envBudget--; return c.envClose(), "eclose" }})
@@ -730,10 +753,16 @@ func vcRunCase(t *testing.T, out *verifOut, cs string, rng *rand.Rand, script []
 	if c.closeN == 0 {
 		c.emit(out, cs, c.envClose(), "eclose")
 	}
+	if script == nil && rng.Intn(8) == 0 { // a bad call while the connection shuts down
+		c.emit(out, cs, c.envCallBad(), "ecallbad")
+	}
 	for i := 0; i < 2000; i++ {
 		if !step(true) {
 			break
 		}
+	}
+	if script == nil && rng.Intn(8) == 0 { // ... and after it has terminated
+		c.emit(out, cs, c.envCallBad(), "ecallbad")
 	}
 	synctest.Wait()
 	// end of case: everything must have finished
@@ -784,6 +813,8 @@ func vcRunScript(c *vcCase, out *verifOut, cs string, script []string) {
 		switch toks[0] {
 		case "ecall":
 			c.envCall()
+		case "ecallbad":
+			c.envCallBad()
 		case "enotify":
 			c.envNotify()
 		case "eclose":
